@@ -190,6 +190,12 @@ func (s *PackScanner) lookupOffset(want uint64) (int, bool) {
 
 // offset returns the pack offset for the object at the given index position.
 func (s *PackScanner) offset(pos int) (uint64, error) {
+	// pos comes from the fanout search or from the (untrusted) reverse index:
+	// only positions inside the 32-bit offset table are answered from.
+	if pos < 0 || pos >= s.count {
+		return 0, fmt.Errorf("%w: invalid offset 32", ErrCorruptedIdx)
+	}
+
 	start := s.off32Start + pos*off32Size
 	if start+off32Size > len(s.idxMmap) {
 		return 0, fmt.Errorf("%w: invalid offset 32", ErrCorruptedIdx)
